@@ -20,7 +20,7 @@ CACHE = os.path.join(VERIF, ".cache")
 DRIVER_DIR = os.path.join(VERIF, "driver")
 DRIVER_BIN = os.path.join(DRIVER_DIR, "target", "debug", "jjv-driver")
 TARGET_DIR = os.path.join(CACHE, "target")
-SCHEMA_VERSION = "11"
+SCHEMA_VERSION = "12"
 
 # floors derived from the counts measured on the pinned tree (308 / 8140 / 6536)
 BODY_FLOORS = {"jj_core": 300, "jj_lib": 7800, "jj_cli": 6200}
